@@ -492,6 +492,7 @@ unit({
     'views': VOL_VIEWS,
     'vecptr_types': ('vec_Rf',),
     'ctor_calls': {'FileWriterT': {'fn': 'FileWriter_ctor', 'throws': True}},
+    'default_ctors': {'CreateVolumeInfo': 'CreateVolumeInfo_ctor'},
     'calls': {
         'fileCount': N('CreateVolumeInfo_fileCount'),
         'OpenAllInputFiles': T('VolFile_OpenAllInputFiles', recv='none', args=['ref', 'ref']),
@@ -511,6 +512,9 @@ unit({
         _vf('WriteHeader'),
         _vf('WriteFiles'),
         _vf('WriteVolume', rangefor={'path': 'str'}),
+        _vf('CreateArchive',
+            calls={'GetNamesFromPaths': N('ArchiveFile_GetNamesFromPaths', recv='none', args=['ref']), 'VerifySortedContainerHasNoDuplicateNames': T('ArchiveFile_VerifySortedContainerHasNoDuplicateNames', recv='none', args=['ref']),
+                   'PrepareHeader': T('VolFile_PrepareHeader_U', recv='none', args=['ref', 'ref']), 'WriteVolume': T('VolFile_WriteVolume_U', recv='none', args=['ref', 'ref'])}),
     ],
 })
 
@@ -527,7 +531,8 @@ unit({
     'name': 'clm',
     'includes': ['kr.h', 'kf.h', 'wr.h', 'volw.h'],
     'vecptr_types': ('vec_Fr',),
-    'ctor_calls': {'FileWriterT': {'fn': 'FileWriter_ctor', 'throws': True}},
+    'ctor_calls': {'FileWriterT': {'fn': 'FileWriter_ctor', 'throws': True}, 'vec_WaveFormatEx': {'fn': 'vec_WaveFormatEx_ctor_n', 'throws': True}, 'vec_ClmIndexEntry': {'fn': 'vec_ClmIndexEntry_ctor_n', 'throws': True}},
+    'default_ctors': {'vec_Fr': 'vec_Fr_ctor0'},
     'typemap': CLM_TM,
     'structs': [STR_VIEW, TAG_T, VIEW('vec_str', 'str'), ARR('arr_char_32', 'char', 32), ARR('arr_char_6', 'char', 6), ARR('arr_char_8', 'char', 8),
                 (WFH, 'WaveFormatEx'), (WFH, 'RiffHeader'), (WFH, 'FormatChunk'), (WFH, 'ChunkHeader'), (WFH, 'WaveHeader'),
@@ -554,6 +559,12 @@ unit({
         _cf('ReadAllWaveHeaders', typemap={'std::vector<std::unique_ptr<Stream::FileReader>>': 'vec_Fr'},
             calls={'Read': {1: T('Fr_Read', args=['obj']), 2: T('Fr_Read')}, 'Length': N('Fr_Length'), 'FindChunk': T('ClmFile_FindChunk_F', recv='none', args=[None, 'ref'])},
             views=[(r'\(\*filesToPackReaders\)', 'vecptr'), (r'\(\*waveFormats\)', 'vec'), (r'\(\*indexEntries\)', 'vec')]),
+        _cf('CreateArchive', typemap={'std::vector<std::unique_ptr<Stream::FileReader>>': 'vec_Fr'}, rangefor={'filename': 'str', 'name': 'str'},
+            calls={'push_back': T('vec_Fr_open_push_back', args=['ref']), 'ReadAllWaveHeaders': T('ClmFile_ReadAllWaveHeaders_U', recv='none', args=['ref', 'ref', 'ref']),
+                   'CompareWaveFormats': T('ClmFile_CompareWaveFormats_U', recv='none', args=['ref', 'ref']), 'GetNamesFromPaths': N('ArchiveFile_GetNamesFromPaths', recv='none', args=['ref']),
+                   'StripFilenameExtensions': N('ClmFile_StripFilenameExtensions_U', recv='none'), 'VerifySortedContainerHasNoDuplicateNames': T('ArchiveFile_VerifySortedContainerHasNoDuplicateNames', recv='none', args=['ref']),
+                   'PrepareWaveFormat': N('ClmFile_PrepareWaveFormat_U', recv='none', args=['ref']), 'WriteArchive': T('ClmFile_WriteArchive_U', recv='none', args=['ref', 'ref', 'ref', 'ref', None])},
+            views=[(r'filesToPack', 'vec'), (r'names', 'vec'), (r'\(\*name\)', 'str')]),
         _cf('CompareWaveFormats'),
         _cf('PrepareIndex'),
         _cf('WriteArchive', typemap={'std::vector<std::unique_ptr<Stream::FileReader>>': 'vec_Fr', 'Stream::FileWriter': 'FileWriterT'},
@@ -718,5 +729,7 @@ unit({
         {'file': 'src/Map/SavedGameUnits.cpp', 'qual': 'SavedGameUnits::CheckSizeOfUnit', 'cls': 'SavedGameUnits', 'cname': 'SavedGameUnits_CheckSizeOfUnit'},
         _mr('ReadSavedGameUnits', views=[(r'savedGameUnits\.objects[12]', 'vec')]),
         _mw('CreateHeader'), _mw('GetWidthInTilesLog2'), _mw('WriteContainerSize', static=True),
+        _mw('WriteTilesetSources', static=True, members={}, rangefor={'tilesetSource': 'TilesetSource'}, views=[(r'\(\*tilesetSources\)', 'vec'), (r'\(\*tilesetSource\)\.tilesetFilename', 'str')],
+            calls={'Write': {1: [(r'.*', T('Wr_Write', args=['obj']))], ('uint32_t', 1): [(r'.*tilesetFilename', T('Writer_WriteSized_u32_str', args=['ref']))]}, 'IsEmpty': N('TilesetSource_IsEmpty')}),
     ],
 })
